@@ -13,10 +13,10 @@ import json
 import os
 import struct
 
-from lib.core import cN, cbool, cbytes, clist, copt, cpair, vB, vL, vN, vbool
+from lib.core import cN, cbool, cbytes, clist, copt, cpair, vB, vL, vN, vbool, vopt
 
 PROPERTY = "C13"
-GEN: list = []
+GEN: list = ["types", "idiff", "state"]   # Gen/PyTypes.v, Gen/IDiff.v (_diff_meta), Gen/State.v (translator/statedb.py)
 RULE = (
     "a case is a history of 8-40 operations over <=5 files with contents from a pool with same-length "
     "twins, CRLF/LF twins and binary blocks: write (same inode), replace (temp + os.replace, new inode), "
@@ -42,6 +42,10 @@ ASSUMPTIONS = [
     "_checksum = injective pairing of (ino, mtime, size) (md5 of the printed list; recomputed independently "
     "for every row read back)",
     "index level: flat directory of regular non-executable files on the local file system",
+    "translated units (Gen/State.v: _checksum field list, State._get, HASH_VERSION, the non-local guards, "
+    "SQLITE_MAX_VARIABLE_NUMBER, batched; Gen/IDiff.v: _diff_meta) are proved equal to the model's deciders "
+    "(C13_tie_*) and validated against the real functions on enumerated arguments on every run; State._get is "
+    "translated after a shape-checked normalisation (try/json_loads, entry[...], attribute assignment, tuple return)",
 ]
 
 IMPORTS = "From Coq Require Import NArith List.\nFrom DvcData Require Import Model.StateDb."
@@ -732,8 +736,25 @@ def gen_history(ctx, big=None):  # noqa: C901, PLR0912, PLR0915
             cur[f] = content(f)
             ops.append({"op": "create", "f": f, "c": cur[f]})
     ops.append({"op": "memput", "f": rng.randrange(nfiles), "c": rng.choice(pal)})
+    def index_block():
+        """the carry-over scenario: build + md5 one index, mutate some files, rebuild the other, update it"""
+        s1 = rng.choice("AB")
+        s2 = "B" if s1 == "A" else "A"
+        blk = [{"op": "ibuild", "s": s1}, {"op": "imd5", "s": s1, "alg": rng.choice(["md5", "md5", "md5-dos2unix", "sha256"])}]
+        for _ in range(rng.choice([0, 1, 1, 2])):
+            m = mutation()
+            if m["op"] not in ("foreign", "memput"):
+                blk.append(m)
+        blk += [{"op": "ibuild", "s": s2}, {"op": "iupdate", "s": s2}]
+        if rng.random() < 0.5:
+            blk.append({"op": "imd5", "s": s2, "alg": rng.choice(["md5", "md5-dos2unix"])})
+        return blk
+
     while len(ops) < nops:
-        if rng.random() < 0.42:
+        r = rng.random()
+        if r < 0.08:
+            ops.extend(index_block())
+        elif r < 0.46:
             ops.append(mutation())
         else:
             ops.append(query())
@@ -823,6 +844,143 @@ SUB_RESOLUTION = {"nfiles": 1, "expect_ticks": False, "probe": "sub-resolution",
 
 
 # --------------------------------------------------------------------------------------
+# validation of the translated units against the real functions (DESIGN 4.1), independent of the
+# hand-written model: the generated definitions are evaluated directly
+
+
+GEN_IMPORTS = """From Coq Require Import NArith List.
+From DvcData Require Import Base.Val Base.PyBase Gen.PyTypes Model.StateDbBase.
+From DvcData Require Gen.State Gen.IDiff.
+Definition T := Build_token.
+Definition enc_gen_hit (r : option (meta * hashinfo)) : val :=
+  match r with
+  | None => VL nil
+  | Some (m, h) => VL (cons (enc_option VN (m_inode m)) (cons (enc_option VN (m_mtime m)) (cons (enc_option VN (m_size m))
+                   (cons (enc_option VB (hi_name h)) (cons (enc_option VB (hi_value h)) nil)))))
+  end.
+Definition enc_gen_batched (r : option (list (list N))) : val :=
+  match r with None => VL nil | Some b => VL (cons (VL (map (fun ch => VL (map VN ch)) b)) nil) end."""
+
+
+def validate_units(ctx):  # noqa: C901, PLR0915
+    from dvc_objects.fs.local import localfs
+
+    from dvc_data.compat import batched
+    from dvc_data.hashfile.meta import Meta
+    from dvc_data.hashfile.state import State
+    from dvc_data.index.diff import _diff_meta
+
+    # ---- State._get: every validity decision
+    base = ctx.fresh("c13-units")
+    st = State(root_dir=base, tmp_dir=os.path.join(base, "state"))
+    items = []
+    try:
+        tok0 = (77, 1700000000.25, 5)
+        variants = [tok0, (78, tok0[1], 5), (77, 1700000000.5, 5), (77, tok0[1], 6)]
+        rows = [None]    # not JSON
+        for ver in (None, 0, 1, 2, 3):
+            for hi in ({"md5": "aa"}, {"md5-dos2unix": "bb"}, {"sha256": "cc"}, {}):
+                rows.append((ver, hi))
+        for row in rows:
+            for rtok in (variants if row is not None else variants[:1]):
+                for itok in (variants[:2] if row is not None else variants[:1]):
+                    info = {"ino": itok[0], "mtime": itok[1], "size": itok[2], "type": "file", "mode": 0o100644}
+                    if row is None:
+                        raw, rterm = "{not json", "None"
+                    else:
+                        ver, hi = row
+                        entry = {"checksum": cks(*rtok), "size": rtok[2] + 100, "hash_info": hi}
+                        if ver is not None:
+                            entry["version"] = ver
+                        raw = json.dumps(entry)
+                        d = clist([f"({cbytes(k)}, PVStr {cbytes(v)})" for k, v in hi.items()])
+                        rterm = (f"(Some (Gen.State.mk_srow [{rtok[0]}; {fbits(rtok[1])}; {rtok[2]}] {copt(ver, cN)} "
+                                 f"{rtok[2] + 100} {d}))")
+                    r = st._get(os.path.join(base, "x"), raw, info)
+                    if r is None:
+                        exp = vL([])
+                    else:
+                        m, h = r
+                        exp = vL([vopt(m.inode, vN), vopt(None if m.mtime is None else fbits(m.mtime), vN),
+                                  vopt(m.size, vN), vopt(h.name, vB), vopt(h.value, vB)])
+                    ctx.count("unit:_get:" + ("miss" if r is None else "hit"))
+                    items.append(({"unit": "State._get", "row": row, "row_token": list(rtok), "info_token": list(itok)},
+                                  cpair(rterm, ctoken(itok)), exp))
+    finally:
+        st.close()
+    ctx.correspond("unit_State_get", GEN_IMPORTS, "(option Gen.State.srow) * token",
+                   "fun c => enc_gen_hit (Gen.State.State__get (fst c) (snd c))", items)
+
+    # ---- _diff_meta (cmp_key None): presence x every attribute changed alone
+    def mterm(m):
+        if m is None:
+            return "None"
+
+        def o(x, f):
+            return copt(x, f)
+        return ("(Some (mk_meta " + " ".join([
+            cbool(m.isdir), o(m.size, cN), o(m.nfiles, cN), cbool(m.isexec), o(m.version_id, cbytes), o(m.etag, cbytes),
+            o(m.checksum, cbytes), o(m.md5, cbytes), o(m.inode, cN), o(None if m.mtime is None else fbits(m.mtime), cN),
+            o(m.remote, cbytes), cbool(m.is_link), o(m.destination, cbytes), cN(m.nlink)]) + "))")
+
+    def mk(**kw):
+        d = {"isdir": False, "size": 3, "nfiles": None, "isexec": False, "version_id": None, "etag": None,
+             "checksum": None, "md5": None, "inode": 9, "mtime": 1700000000.5, "remote": None, "is_link": False,
+             "destination": None, "nlink": 1}
+        d.update(kw)
+        return Meta(**d)
+
+    changes = [{}, {"isdir": True}, {"size": 4}, {"size": None}, {"nfiles": 2}, {"isexec": True}, {"version_id": "v"},
+               {"etag": "e"}, {"checksum": "c"}, {"md5": "m"}, {"inode": 10}, {"inode": None}, {"mtime": 1700000000.75},
+               {"mtime": None}, {"remote": "r"}, {"is_link": True}, {"destination": "d"}, {"nlink": 2}]
+    pairs = [(None, None), (None, mk()), (mk(), None)]
+    pairs += [(mk(), mk(**c)) for c in changes] + [(mk(**c), mk(**c)) for c in changes[1:]]
+    items = []
+    for a, b in pairs:
+        got = _diff_meta(a, b)
+        ctx.count("unit:_diff_meta:" + got)
+        items.append(({"unit": "_diff_meta", "old": repr(a), "new": repr(b)}, cpair(mterm(a), mterm(b)), vB(got)))
+    ctx.correspond("unit_diff_meta", GEN_IMPORTS, "(option meta) * (option meta)",
+                   "fun c => VB (Gen.IDiff.ichange_str (Gen.IDiff.diff_meta (fst c) (snd c) None))", items)
+
+    # ---- batched
+    items = []
+    for n in (0, 1, 2, 3, 5):
+        for k in (0, 1, 2, 3, 4, 5, 6, 7, 11):
+            try:
+                got = [list(c) for c in batched(range(k), n)]
+                exp = vL([vL([vL([vN(x) for x in c]) for c in got])])
+            except ValueError:
+                exp = vL([])
+            items.append(({"unit": "batched", "n": n, "len": k},
+                          cpair(f"{n}%nat", clist([str(x) for x in range(k)])), exp))
+    ctx.correspond("unit_batched", GEN_IMPORTS, "nat * list N",
+                   "fun c => enc_gen_batched (Gen.State.batched_gen (fst c) (snd c))", items)
+    # the bypass guard is what the generated list says: a memory file system reads and writes nothing
+    from dvc_objects.fs.memory import MemoryFileSystem
+
+    from dvc_data.hashfile.hash_info import HashInfo
+
+    base = ctx.fresh("c13-units2")
+    st = State(root_dir=base, tmp_dir=os.path.join(base, "state"))
+    try:
+        mem = MemoryFileSystem(global_store=False)
+        p = os.path.join(base, "f")
+        mem.pipe_file(p, b"x")
+        with open(p, "wb") as f:
+            f.write(b"x")
+        st.save(p, mem, HashInfo("md5", "0" * 32))
+        st.save_many([(p, HashInfo("md5", "0" * 32), None)], mem)
+        wrote = len(list(st.hashes)) != 0
+        st.save(p, localfs, HashInfo("md5", digest("md5", b"x")))
+        ok = (not wrote and st.get(p, mem) == (None, None) and list(st.get_many([p], mem, {})) == [(p, None, None)]
+              and st.get(p, localfs)[1] is not None)
+    finally:
+        st.close()
+    ctx.obligation("oracle:nonlocal-bypass", ok, "save/save_many/get/get_many on a memory file system touch nothing")
+    if not ok:
+        ctx.oracle_fail("C13:foreign-hit:nonlocal", "State.save/get on a non-local file system read or wrote the table",
+                        {"unit": "nonlocal-bypass"})
 
 
 def run_history(ctx, case):
@@ -833,7 +991,16 @@ def run_history(ctx, case):
             op = dict(op)
             if op.get("back") == "first":
                 op["back"] = first_ns
-            r.do(op)
+            try:
+                r.do(op)
+            except AssertionError:
+                raise
+            except Exception as exc:  # noqa: BLE001
+                # a route of the implementation raised where the histories of the unchanged tree never do:
+                # the concrete history is the failing input (no model comparison for the truncated run)
+                r.fail(f"C13:route-raised:{op['op']}:{type(exc).__name__}",
+                       f"operation {len(r.outs)} {op} raised {exc!r}")
+                return None, None, list(r.problems), set(r.flags)
             if first_ns is None and op["op"] in ("create", "write") and op["f"] in r.content:
                 first_ns = os.stat(r.path([op["f"]])).st_mtime_ns
         db = r.dump_db()
@@ -882,7 +1049,8 @@ def run(ctx):
         for sig, what in problems:
             n_problem += 1
             ctx.oracle_fail(sig, what, case)
-        items.append((case, inp, exp))
+        if inp is not None:
+            items.append((case, inp, exp))
     ctx.obligation("oracle:never-stale", n_problem == 0,
                    f"{len(items)} histories; every answer of every route compared with a hashlib recomputation at the same instant")
     # 3. the two probes at the edge of the environment hypothesis
@@ -891,7 +1059,8 @@ def run(ctx):
         inp, exp, problems, flags = run_history(ctx, case)
         stale = [p for p in problems if p[0].startswith("C13:stale")]
         probes[case["probe"]] = {"stale_answer_observed": bool(stale), "what": [w for _, w in stale][:1]}
-        items.append((case, inp, exp))
+        if inp is not None:
+            items.append((case, inp, exp))
         if case["probe"] == "sub-resolution" and stale and SUBRES_SIG in ctx.known:
             ctx.oracle_fail(SUBRES_SIG, stale[0][1], case)
     ctx.extra["assumption_probes"] = probes
@@ -903,6 +1072,7 @@ def run(ctx):
                    + ("stale answer observed - the float st_mtime does not change, the token is not new (outside Ticks as "
                       "observed by the implementation)" if probes["sub-resolution"]["stale_answer_observed"]
                       else "no stale answer"))
+    validate_units(ctx)
     ctx.correspond("history", IMPORTS, "(list (name * bytes * oid)) * list op",
                    "fun c => enc_run (tableH (fst c)) (snd c)", items, shard=ctx.n(12, 40))
 
